@@ -15,8 +15,11 @@ use std::cell::RefCell;
 pub const A: u64 = 96;
 pub const B: u64 = 8192;
 /// steps(4n, 4m) <= RATIO * steps(n, m) wherever steps(n, m) >= RATIO_MIN.
-pub const RATIO: u64 = 8;
+pub const RATIO: u64 = 6;
+/// steps(16n, 16m) <= RATIO16 * steps(n, m) (linear cost gives 16, a term in n*m gives 256).
+pub const RATIO16: u64 = 24;
 pub const RATIO_MIN: u64 = 20_000;
+pub const RATIO16_MIN: u64 = 4_000;
 
 pub const FAMILIES: [&str; 12] = [
     "a^(m-1)b in (a^(m-1)c)^r",
@@ -163,7 +166,7 @@ fn step_viol(ctx: &Ctx, what: &str, family: u8, op: u8, n: usize, m: usize, seed
         "family": family, "family_name": FAMILIES[family as usize], "n": n, "m": m, "family_seed": seed,
         "needles": show(needle), "haystack_shown": show(hay), "haystack_len": n + m,
         "needle": if needle.len() <= 64 { hex(needle) } else { String::new() },
-        "detail": detail, "what": what, "expected": format!("steps <= {}*(n+m)+{} and steps(4n,4m) <= {}*steps(n,m)", A, B, RATIO), "observed": what,
+        "detail": detail, "what": what, "expected": format!("steps <= {}*(n+m)+{}, steps(4n,4m) <= {}*steps(n,m), steps(16n,16m) <= {}*steps(n,m)", A, B, RATIO, RATIO16), "observed": what,
         "signature": format!("{}|{}|steps|{}|{}|n={}|m={}", ctx.prop, config, family, OPS[op as usize], n, m),
     })
 }
@@ -215,6 +218,24 @@ pub fn judge(ctx: &Ctx, family: u8, op: u8, n: usize, m: usize, seed: u64, scale
                 return Some(step_viol(ctx, &format!("steps grow x{:.1} ({} -> {}) when haystack and needle grow x4 (linear cost gives x4, quadratic x16)", r, s1, s4), family, op, hay.len(), needle.len(), seed, &needle, &hay, json!({"steps_n_m": s1, "steps_4n_4m": s4})));
             }
         }
+        // a second, longer lever for super-linear terms with a small coefficient
+        if s1 >= RATIO16_MIN && n <= 16384 && m <= 256 {
+            let (needle16, hay16) = build(family, 16 * n, 16 * m, seed);
+            let (s16, _) = measure(op, &needle16, &hay16);
+            let nm16 = (needle16.len() + hay16.len()) as u64;
+            maxes.note(family, s16, nm16);
+            let r16 = s16 as f64 / s1 as f64;
+            if r16 > maxes.ratio16 {
+                maxes.ratio16 = r16;
+                maxes.ratio16_at = format!("{} {} n={} m={}", FAMILIES[family as usize], OPS[op as usize], n, m);
+            }
+            if s16 > A * nm16 + B {
+                return Some(step_viol(ctx, &format!("{} steps for n+m = {} ({:.1} per byte) exceeds {}*(n+m)+{}", s16, nm16, s16 as f64 / nm16 as f64, A, B), family, op, hay16.len(), needle16.len(), seed, &needle16, &hay16, json!({"steps": s16})));
+            }
+            if s16 > RATIO16 * s1 {
+                return Some(step_viol(ctx, &format!("steps grow x{:.1} ({} -> {}) when haystack and needle grow x16 (linear cost gives x16, quadratic x256)", r16, s1, s16), family, op, hay.len(), needle.len(), seed, &needle, &hay, json!({"steps_n_m": s1, "steps_16n_16m": s16})));
+            }
+        }
     }
     None
 }
@@ -225,11 +246,13 @@ pub struct Maxes {
     pub ratio: f64,
     pub ratio_at: String,
     pub ratios: u64,
+    pub ratio16: f64,
+    pub ratio16_at: String,
 }
 
 impl Maxes {
     pub fn new() -> Maxes {
-        Maxes { per_byte: 0.0, per_byte_at: String::new(), ratio: 0.0, ratio_at: String::new(), ratios: 0 }
+        Maxes { per_byte: 0.0, per_byte_at: String::new(), ratio: 0.0, ratio_at: String::new(), ratios: 0, ratio16: 0.0, ratio16_at: String::new() }
     }
     fn note(&mut self, family: u8, s: u64, nm: u64) {
         if nm >= 512 {
@@ -310,7 +333,8 @@ pub fn steps_stage(ctx: &Ctx) -> Frag {
     }
     s.frag.extra.insert("max_steps_per_byte".into(), json!(s.maxes.per_byte));
     s.frag.extra.insert("max_ratio_4x".into(), json!(s.maxes.ratio));
-    s.frag.notes.push(format!("max steps per byte of (n+m): {:.2} at {}; max growth for x4: {:.2} at {}; bounds A={} B={} RATIO={}", s.maxes.per_byte, s.maxes.per_byte_at, s.maxes.ratio, s.maxes.ratio_at, A, B, RATIO));
+    s.frag.extra.insert("max_ratio_16x".into(), json!(s.maxes.ratio16));
+    s.frag.notes.push(format!("max steps per byte of (n+m): {:.2} at {}; max growth for x4: {:.2} at {}; max growth for x16: {:.2} at {}; bounds A={} B={} RATIO={} RATIO16={}", s.maxes.per_byte, s.maxes.per_byte_at, s.maxes.ratio, s.maxes.ratio_at, s.maxes.ratio16, s.maxes.ratio16_at, A, B, RATIO, RATIO16));
     s.frag
 }
 
